@@ -227,6 +227,41 @@ class NodeAnd:
             expression.collectVars(freeVars, boundVars, additionalBoundVars)
 
 
+class NodeChain(NodeAnd):
+    # a < b < c: the conjunction of the adjacent pairs (the clauses, which
+    # are what is printed), with every operand evaluated once - the clauses
+    # of a < f() < c share the node of f()
+    def __init__(self, clauses, operands, pos):
+        super().__init__(None, pos)
+        self.expressions = clauses
+        self.operands = operands
+
+    def evaluate(self, environment):
+        left = self.operands[0].evaluate(environment)
+        if isExit(left):
+            return left
+        for i, clause in enumerate(self.expressions):
+            right = self.operands[i + 1].evaluate(environment)
+            if isExit(right):
+                return right
+            call = NodeFuncall(clause.func, clause.pos)
+            call.addArg("a", NodeValue(left, clause.pos))
+            call.addArg("b", NodeValue(right, clause.pos))
+            value = call.evaluate(environment)
+            if isExit(value):
+                return value
+            if not value.isBoolean():
+                raise CklRuntimeError(
+                    ValueString("ERROR"),
+                    f"Expected boolean but got {value.type()}",
+                    self.pos,
+                )
+            if not value.value:
+                return FALSE
+            left = right
+        return TRUE
+
+
 class NodeAssign:
     def __init__(self, identifier, expression, pos):
         if identifier.startswith("checkerlang_") or identifier == "NULL":
